@@ -1569,18 +1569,44 @@ class VCGen:
             k = fresh_int('c')
             st2 = st.clone()
             st2.pc.append(And(0 <= k, k < dom['count']))
+            c0 = next(Ty._fresh)
             dom['bind'](st2, k)
             n0 = len(s.obligs)
             v, t = s.ev(e.elt, st2)
             # safety obligations of the element expression hold for every k (k is fresh, i.e. universally quantified)
-            for extra in st2.pc[len(st.pc) + 1:]:
-                pass
             rt = LIST(t)
+            hyp = [c for c in st2.pc[len(st.pc):]]
+            c1 = next(Ty._fresh)
             r = fresh('comp', rt)
             st.pc.append(L_len(r, rt) == If(dom['count'] >= 0, dom['count'], 0))
-            body = substitute(L_arr(r, rt)[k] == v, *[])
-            hyp = [c for c in st2.pc[len(st.pc):]]
-            st.pc.append(ForAll([k], Implies(And(*hyp), body)))
+            body = L_arr(r, rt)[k] == v
+            # symbols introduced while evaluating the element (the value of max(row), its witness position, ...) are chosen PER
+            # element: under the quantifier over k they become functions of k (a constant shared by all elements would make the
+            # fact vacuous for all but one of them)
+            import re as _re
+            from z3 import is_const, Z3_OP_UNINTERPRETED, Function as _Fn
+            found = {}
+
+            def _walk(x, seen):
+                if x.get_id() in seen:
+                    return
+                seen.add(x.get_id())
+                if is_const(x) and x.decl().kind() == Z3_OP_UNINTERPRETED:
+                    m_ = _re.search(r'!(\d+)$', x.decl().name())
+                    if m_ and c0 < int(m_.group(1)) < c1 and not x.eq(k):
+                        found[x.decl().name()] = x
+                for ch in x.children():
+                    _walk(ch, seen)
+            seen_ = set()
+            for x in hyp + [body]:
+                _walk(x, seen_)
+            subs = [(x, _Fn(nm + '@k', IntSort(), x.sort())(k)) for nm, x in found.items()]
+            if subs:
+                hyp = [substitute(c, *subs) for c in hyp]
+                body = substitute(body, *subs)
+            rng_ = [c for c in hyp[:1]]          # the range of k is a condition; what the element's evaluation established is a fact
+            facts_ = [c for c in hyp[1:]]
+            st.pc.append(ForAll([k], Implies(And(*rng_), And(*(facts_ + [body])))))
             return r, rt
         if spec_ is None and len(e.generators) == 2 and not e.generators[0].ifs and not e.generators[1].ifs \
                 and isinstance(e.generators[1].iter, ast.Name) and isinstance(e.generators[0].target, ast.Name) \
